@@ -57,7 +57,7 @@ Proof. vm_compute. reflexivity. Qed.
 
 (* --- known finding C14/lazy-stub-drops-type-args -------------------------------------------------------- *)
 (* K0 generic (lazy), K1(a: K0[int]) lazy: the stub for K0.__mashumaro_to_dict_<md5>__ rebuilds K0.to_dict *)
-Definition F_spec (lazy: bool) : fam := [CD lazy false [(0, 0)] []; CD lazy false [(0, 0)] [FD 0 1]].
+Definition F_spec (lazy: bool) : fam := [CD lazy false [(0, 0)] []; CD lazy false [(0, 0)] [FD 0 1 true]].
 Definition h_spec : list op := [Define 0; Define 1; Call 1 to_dict None (V [(0, V [])])].
 
 Example lazy_specialisation_diverges :
@@ -84,7 +84,7 @@ Qed.
 (* K0 plain, K1(p: K0) with ADD_DIALECT_SUPPORT: lazy K1, FIRST call with a dialect: the nested class is now
    compiled on demand for its DEFAULT method, so the first call answers like the eager twin (general statement:
    LazyProofs.no_cache_attribute_error + history_partial) *)
-Definition F_dial (lazy: bool) : fam := [CD false false [] []; CD lazy true [(0, 0)] [FD 0 0]].
+Definition F_dial (lazy: bool) : fam := [CD false false [] []; CD lazy true [(0, 0)] [FD 0 0 true]].
 Definition h_dial : list op := [Define 0; Define 1; Call 1 to_dict (Some 1) (V [(0, V [])])].
 
 Example dialect_first_agrees :
@@ -93,18 +93,21 @@ Example dialect_first_agrees :
   run (F_dial true) true FUEL st0 h_dial = run (F_dial false) true FUEL st0 h_dial.
 Proof. split; vm_compute; reflexivity. Qed.
 
-(* --- known finding C14/dialect-first-call-on-self-referencing-class (residue of 28d8957) ---------------------- *)
-(* K0(MessagePack mixin, ADD_DIALECT_SUPPORT, ks: List[K0]): the dialect-specific builder skips the self position *)
-Definition F_self : fam := [CD false true [(0, 0); (1, 1)] [FD 0 0]].
-Example dialect_first_selfref_raises :
-  nth_error (run F_self true FUEL st0 [Define 0; Call 0 to_msgpack (Some 1) (V [(0, V [])])]) 1 = Some (Exc EAttrMeth) /\
-  nth_error (run F_self true FUEL st0 [Define 0; Call 0 to_msgpack None (V [(0, V [])]); Call 0 to_msgpack (Some 1) (V [(0, V [])])]) 2 =
+(* --- fixed by b1d4bae / 423401c (was: known finding C14/dialect-first-call-on-self-referencing-class) --------- *)
+(* K0(MessagePack mixin, ADD_DIALECT_SUPPORT, ks: List[K0]) and the same with ks: List[Self]: the first call with a
+   dialect compiles the default nested method and answers as after a plain call *)
+Definition F_self (byname: bool) : fam := [CD false true [(0, 0); (1, 1)] [FD 0 0 byname]].
+Example dialect_first_selfref_agrees : forall byname,
+  nth_error (run (F_self byname) true FUEL st0 [Define 0; Call 0 to_msgpack (Some 1) (V [(0, V [])])]) 1 =
+    Some (Out (Node 0 (MN true 1 false 0) (Some 1) [Node 0 (MN true 1 false 0) (Some 1) []])) /\
+  nth_error (run (F_self byname) true FUEL st0
+               [Define 0; Call 0 to_msgpack None (V [(0, V [])]); Call 0 to_msgpack (Some 1) (V [(0, V [])])]) 2 =
     Some (Out (Node 0 (MN true 1 false 0) (Some 1) [Node 0 (MN true 1 false 0) (Some 1) []])).
-Proof. split; vm_compute; reflexivity. Qed.
+Proof. intros [|]; split; vm_compute; reflexivity. Qed.
 
 (* --- known finding C14/ondemand-build-cycle ----------------------------------------------------------------- *)
 (* K0(MessagePack mixin, b: Optional[K1]), K1 plain (a: Optional[K0]) *)
-Definition F_cyc (lazy: bool) : fam := [CD lazy false [(0, 0); (1, 1)] [FD 1 0]; CD false false [] [FD 0 0]].
+Definition F_cyc (lazy: bool) : fam := [CD lazy false [(0, 0); (1, 1)] [FD 1 0 true]; CD false false [] [FD 0 0 true]].
 Definition h_cyc : list op := [Define 0; Define 1; Call 0 to_msgpack None (V [])].
 
 Example build_cycle_diverges :
